@@ -1,1 +1,91 @@
-(* Model/ParDot.v -- stub, to be filled in *)
+(* Model/ParDot.v -- Vector<f64>::dot_f64 (src/vector/vec_f64.rs:73-109), the threaded dot product,
+   over any Arith (the code is f64-only; the model is generic so that the same definition is run
+   at AF bit-exactly and proved over an abstract ring).  Definitions only.
+
+     num_threads = num_cpus::get()                       -- the parameter [t] (observed by the executor)
+     chunk_size  = self.size() / num_threads             -- usize division: panics when t = 0
+     for i in 0..num_threads                             -- spawn order
+        start = i*chunk_size ; end = if i == num_threads-1 { size } else { (i+1)*chunk_size }
+        self_slice = &self.vec[start..end] ; w_slice = &w.vec[start..end]   -- checked range slicing (main thread)
+        spawn { result = 0.0 ; for k in 0..self_slice.len() { result += self_slice[k]*w_slice[k] } ; result }
+     result = 0.0 ; for thread in threads { result += thread.join().unwrap() }   -- joined in spawn order
+
+   What the value model cannot exhibit -- a data race, a torn read -- is excluded by the borrowing rules
+   of std::thread::scope (trusted, DESIGN section 6).  What it does exhibit: the partition, the
+   per-worker sum from 0, an arbitrary completion order [sigma] of the workers, each storing its result in
+   the slot of its spawn index, and the main thread folding the slots in spawn order from 0. *)
+From Coq Require Import List Arith Lia.
+From OV Require Import Base.Panic Base.Arith Model.Vector.
+Import ListNotations.
+
+(* (start, end) of worker i of t over a vector of length len *)
+Definition chunk_bounds (len t i : nat) : nat * nat :=
+  let c := len / t in
+  (i * c, if i =? t - 1 then len else (i + 1) * c).
+
+(* &v[s..e] : panics unless s <= e <= len *)
+Definition subslice {X} (v : list X) (s e : nat) : res (list X) :=
+  if s <=? e then
+    if e <=? length v then Ok (firstn (e - s) (skipn s v)) else Panic Index
+  else Panic Index.
+
+(* the slices of the partition, in spawn order (pure list version used by chunks_cover) *)
+Definition slices {X} (v : list X) (t : nat) : list (list X) :=
+  map (fun i => let '(s, e) := chunk_bounds (length v) t i in firstn (e - s) (skipn s v)) (seq 0 t).
+
+Local Open Scope arith_scope.
+
+Section ParDot.
+Context {A : Arith}.
+Notation T := (T A).
+
+(* what the main thread hands to worker i: the two slices *)
+Definition job (v w : list T) (t i : nat) : res (list T * list T) :=
+  let '(s, e) := chunk_bounds (length v) t i in
+  let* a := subslice v s e in
+  let* b := subslice w s e in
+  Ok (a, b).
+
+(* the worker: result = 0; for k in 0..len: result += a[k]*b[k]   (both slices have the same length) *)
+Definition work (j : list T * list T) : T := dot_raw (fst j) (snd j).
+
+Definition jobs (v w : list T) (t : nat) : res (list (list T * list T)) :=
+  mapM (job v w t) (seq 0 t).
+
+(* the result as a function of the worker count: the partial sums added in spawn order, from 0 *)
+Definition pardot (t : nat) (v w : list T) : res T :=
+  if length v =? length w then
+    if t =? 0 then Panic DivZero else
+    let* js := jobs v w t in
+    Ok (fold_left (fun acc j => acc + work j) js zero)
+  else Panic Guard.
+
+(* ---- the scheduler: workers complete in the order sigma; worker k writes slot k ---- *)
+Fixpoint complete (js : list (list T * list T)) (sigma : list nat) (slots : list (option T))
+  : res (list (option T)) :=
+  match sigma with
+  | [] => Ok slots
+  | k :: rest =>
+      let* j := rd js k in
+      let* slots' := upd slots k (Some (work j)) in
+      complete js rest slots'
+  end.
+
+(* for thread in threads { result += thread.join().unwrap() }: a slot never filled is a worker that
+   never finished; the model reports it as Panic Unwrap (the real join would block for ever) *)
+Fixpoint join_all (slots : list (option T)) (acc : T) : res T :=
+  match slots with
+  | [] => Ok acc
+  | Some x :: rest => join_all rest (acc + x)
+  | None :: _ => Panic Unwrap
+  end.
+
+Definition run_sched (sigma : list nat) (t : nat) (v w : list T) : res T :=
+  if length v =? length w then
+    if t =? 0 then Panic DivZero else
+    let* js := jobs v w t in
+    let* slots := complete js sigma (repeat None t) in
+    join_all slots zero
+  else Panic Guard.
+
+End ParDot.
